@@ -1,6 +1,7 @@
 """C12 - Zernike fit, compose and remove are mutually inverse for any mode set."""
 import itertools, random
 import numpy as rnp
+from fractions import Fraction
 
 EXPLANATION = ('C12: zernike_compose / zernike_fit / zernike_remove with symbolic coefficient vectors and symbolic OPD samples on concrete masks '
                '(the basis and its pseudo-inverse are the real numpy results, as at a C boundary); obligations are linear real arithmetic with a 1e-9 tolerance for the float weights.')
@@ -41,6 +42,10 @@ def configs(tier, seed):
     out += [{'mask': mk, 'n': 6, 'modes': [mo], 'normalize': nz, 'coords': 'default'} for mk in ('circle', 'offcentre') for mo in (1, 2, 4, 6) for nz in (True, False)]
     out.append({'mask': 'circle', 'n': 6, 'modes': [2, 3], 'normalize': True, 'coords': 'default'})
     out.append({'mask': 'circle', 'n': 7, 'modes': [3, 1, 2], 'normalize': False, 'coords': 'supplied'})
+    # independent but poorly conditioned mode sets (a small segment described in its parent aperture's coordinates: rho stays below 1/8,
+    # condition number about 5e4): least squares itself loses ~1e-11 there, a solve through the normal equations ~1e-6
+    out += [{'mask': mk, 'n': 7, 'modes': mo, 'normalize': nz, 'coords': 'scaled', 'scale': '1/8'} for mk in ('circle', 'hex')
+            for mo in ([1, 4, 11], [11, 1, 4]) for nz in (True, False)]
     return out, len(out), False
 
 
@@ -61,6 +66,9 @@ def run(W, cfg):
         # a shifted and rotated grid supplied by the caller
         rho, theta = lt.zernike_coordinates(mask, shift=(0.5, -0.25), rotate=30)
         kw = {'rho': rnp.asarray(rho, dtype=float), 'theta': rnp.asarray(theta, dtype=float)}
+    if cfg['coords'] == 'scaled':
+        rho, theta = lt.zernike_coordinates(mask)
+        kw = {'rho': rnp.asarray(rho, dtype=float) * float(Fraction(cfg['scale'])), 'theta': rnp.asarray(theta, dtype=float)}
     basis = W.concrete(loaderless_basis(W, mask, modes, cfg['normalize'], kw)).astype(float)
     B = basis.reshape(len(modes), -1)
     if rnp.linalg.matrix_rank(B) < len(modes) or rnp.linalg.cond(B) >= 1e8:
